@@ -394,19 +394,19 @@ class C07(Plugin):
         if orig[0] == 'node':
             o = orig[1]
             if isinstance(o, (ast.stmt, ast.expr, ast.pattern)) and type(o) is type(ret.a):
-                if ndump(o) != ndump(ret.a):
+                if ndump_ml(o) != ndump_ml(ret.a):
                     from .editsim import _first_diff
-                    raise Violation('copy_not_structurally_equal', _first_diff(ndump(o), ndump(ret.a)))
+                    raise Violation('copy_not_structurally_equal', _first_diff(ndump_ml(o), ndump_ml(ret.a)))
                 run.stats['faithful_checks'] += 1
         else:
-            want = sorted(ndump(x) for x in orig[1])
+            want = sorted(ndump_ml(x) for x in orig[1])
             if orig[2] in ('BoolOp', 'Compare', 'MatchOr') and ret.a.__class__.__name__ != orig[2]:
                 # normalised single-element result (e.g. one-operand BoolOp slice returned as the operand itself)
-                if len(want) == 1 and want[0] != ndump(ret.a):
-                    raise Violation('slice_copy_not_structurally_equal', f'want={want!r}'[:400] + f' got={ndump(ret.a)!r}'[:400])
+                if len(want) == 1 and want[0] != ndump_ml(ret.a):
+                    raise Violation('slice_copy_not_structurally_equal', f'want={want!r}'[:400] + f' got={ndump_ml(ret.a)!r}'[:400])
                 return
             kids = [c for c in ast.iter_child_nodes(ret.a) if not isinstance(c, (ast.expr_context,))]
-            got = sorted(ndump(x) for x in kids)
+            got = sorted(ndump_ml(x) for x in kids)
             if isinstance(ret.a, ast.Module) or ret.a.__class__.__name__.startswith('_') or isinstance(ret.a, (ast.List, ast.Tuple, ast.Set)):
                 if want != got:
                     opts = O.dec_opts(op.get('opts'))
